@@ -30,9 +30,82 @@ class Recorder:
     made = []
 
     def __init__(self, segments, colors=None, **kw):
+        # matplotlib validates the colours when a LineCollection is built; keep that part of its contract
+        import matplotlib.colors as mc
+        if colors is not None:
+            mc.to_rgba_array(colors)
+            if len(colors) != len(segments):
+                raise ValueError("colors and segments differ in length")
         self.segments = segments
         self.colors = colors
         Recorder.made.append(self)
+
+
+def replay_plot(inp):
+    """Concrete twin: the real plot() with the real matplotlib (Agg) on a real cube package."""
+    import os
+    import shutil
+    import tempfile
+    import matplotlib
+    matplotlib.use('Agg')
+    import astropy.units as u
+    ld = loader.real_loader()
+    CU = ld.load('sedfitter.sed.cube').SEDCube
+    FI = ld.load('sedfitter.fit_info')
+    S = ld.load('sedfitter.source.source').Source
+    EX = ld.load('sedfitter.extinction.extinction').Extinction
+    PL = ld.load('sedfitter.plot')
+    n_ap, nsel, sed_type = inp['n_ap'], inp['n_sel'], inp['sed_type']
+    d = tempfile.mkdtemp(prefix='c17-')
+    try:
+        with ld.registered():
+            open(os.path.join(d, 'models.conf'), 'w').write("name = t\nlength_subdir = 0\naperture_dependent = no\nlogd_step = 0.02\nversion = 2\n")
+            names = ['m_b', 'm_a']
+            cu = CU()
+            cu.names, cu.distance = names, 1 * u.kpc
+            cu.wav = np.array([1.0, 2.0, 4.0]) * u.micron
+            cu.apertures = (np.array([100.0]) if n_ap == 1 else np.array([1000.0 * (i + 1) for i in range(n_ap)])) * u.au
+            rng = np.random.default_rng(5)
+            val = rng.uniform(1, 5, (2, n_ap, 3))
+            cu.val, cu.unc = val * u.mJy, 0.1 * val * u.mJy
+            cu.write(os.path.join(d, 'flux.fits'))
+            e = EX()
+            e.wav = np.array([0.1, 1.0, 10.0]) * u.micron
+            e.chi = np.array([10.0, 1.0, 0.1]) * u.cm ** 2 / u.g
+            aps = [3.0, 3.0] if n_ap == 1 else [3.0, 5.0]
+            filters = [{'aperture_arcsec': aps[i], 'wav': w * u.micron} for i, w in enumerate((1.0, 4.0))]
+            k = e.get_av(np.array([1.0, 4.0]) * u.micron).value
+            info = FI.FitInfo()
+            s = S()
+            s.name, s.valid, s.flux, s.error = 'src_p', np.array([4, 4]), np.array([0.1, 0.2]), np.array([0.1, 0.1])
+            info.source = s
+            info.av, info.sc, info.chi2 = np.array([1.0, 2.0])[:nsel], np.array([0.1, 0.0])[:nsel], np.array([1.0, 2.0])[:nsel]
+            info.model_name = np.array(names[:nsel], dtype='U30')
+            info.model_id = np.arange(nsel)
+            cols = (2, 0) if False else (0, 2)
+            info.model_fluxes = np.array([[np.log10(val[i, 0, c_]) + info.av[i] * k[f] - 2 * info.sc[i] for f, c_ in enumerate((0, 2))] for i in range(nsel)])
+            info.meta.model_dir, info.meta.filters, info.meta.extinction_law = d, filters, e
+            try:
+                figs = PL.plot(info, output_dir=None, select_format=('A', 0), sed_type=sed_type)
+            except Exception as ex:  # noqa: BLE001
+                return True, {'raised': '%s: %s' % (type(ex).__name__, ex)}
+            segs = figs['src_p']['lines'].get_segments()
+            ncur = N_CURVES[sed_type](len(set(aps)) if sed_type == 'all' else n_ap)
+            if len(segs) != nsel * ncur:
+                return True, {'curves': len(segs), 'expected': nsel * ncur}
+            if n_ap == 1:
+                for pos in range(nsel):
+                    fit = nsel - 1 - pos
+                    for cidx in range(ncur):
+                        seg = segs[pos * ncur + cidx]
+                        for fidx, lam in enumerate((1.0, 4.0)):
+                            j = [float(x) for x in seg[:, 0]].index(lam)
+                            want = 10 ** info.model_fluxes[fit, fidx] * (299792458.0 / (lam * 1e-6)) * 1e-26
+                            if not close(seg[j, 1], want, 2e-3, 0.0):
+                                return True, {'fit': fit, 'wavelength': lam, 'drawn': float(seg[j, 1]), 'predicted': float(want)}
+            return False, {}
+    finally:
+        shutil.rmtree(d, ignore_errors=True)
 
 
 N_CURVES = {'interp': lambda nap: 1, 'largest': lambda nap: 1, 'largest+smallest': lambda nap: 2, 'all': lambda nap: nap}
@@ -43,7 +116,7 @@ def h_plot(sed_type, n_ap, n_sel, form, nm=2):
         std_assumptions(part)
         part.bounds = {'display_mode': sed_type, 'package_apertures': n_ap, 'selected_fits': n_sel, 'models': nm, 'input': form,
                        'cube_wavelengths': [1.0, 2.0, 4.0], 'fitted_at': [1.0, 4.0], 'filter_apertures_arcsec': [3.0, 3.0] if n_ap == 1 else [3.0, 5.0]}
-        part.assumptions |= {"matplotlib's LineCollection is replaced by a recorder of its arguments; nothing is rendered",
+        part.assumptions |= {"matplotlib's LineCollection is replaced by a recorder of its arguments that validates the colours as matplotlib does; nothing is rendered",
                              "file-system / pickle / FITS stubs (C12, C19); cube wavelengths and the extinction table concrete, fluxes / A_V / scale symbolic",
                              "log10 / 10** uninterpreted inverses with the product rule"}
         pk = pkgfix.Pkg()
@@ -102,8 +175,9 @@ def h_plot(sed_type, n_ap, n_sel, form, nm=2):
 
         with loader.Coverage() as cov:
             for c, out in ex.run(body):
+                rinp = lambda m: {'n_ap': n_ap, 'n_sel': n_sel, 'sed_type': sed_type, 'form': form}
                 if out[0] == 'exc':
-                    cl.crash(c, out[1], 'plot(sed_type=%s)' % sed_type)
+                    cl.crash(c, out[1], 'plot(sed_type=%s)' % sed_type, rinp, replay_plot)
                     continue
                 v = c.vars
                 figs = out[1]
@@ -113,7 +187,7 @@ def h_plot(sed_type, n_ap, n_sel, form, nm=2):
                 ok = list(figs.keys()) == ['src_p'] and 'lines' in figs['src_p']
                 segs = figs['src_p']['lines'].segments if ok else []
                 cl.claim(c, bool(ok and len(segs) == nsel * ncur), 'G1 number of curves == %d selected fits x %d curves for mode %s (got %d)'
-                         % (nsel, ncur, sed_type, len(segs)))
+                         % (nsel, ncur, sed_type, len(segs)), rinp, replay_plot)
                 if not ok or len(segs) != nsel * ncur:
                     continue
                 # G3: abscissa; which SED index belongs to which wavelength
@@ -147,7 +221,7 @@ def h_plot(sed_type, n_ap, n_sel, form, nm=2):
                                 d = C.real(lhs - pred)
                                 g.append(z3.And(d.t < rv_tol, d.t > -rv_tol))
                     cl.claim(c, conj(g), 'G2/G4 curves run from the last selected fit to the best; each passes through the predicted flux of its fit '
-                             'at the fitted wavelengths (up to (kpc/KPC)^2)')
+                             'at the fitted wavelengths (within 1e-3)', rinp, replay_plot)
                 if part.witnesses < 2:
                     cl.witness(c)
         R.finish_part(part, ex, cov)
@@ -172,4 +246,4 @@ def configs(tier, seed):
 
 
 def replay(rec):
-    return False, 'no concrete twin registered for C17'
+    return replay_plot(R.unjson_num(rec['inputs']))
